@@ -1881,7 +1881,12 @@ impl TypeChecker {
 
     fn add_inner(&mut self, span: Span, ctx: TypeCtx, a: TyID, b: TyID) -> TypeResult<()> {
         match (self.find_type(a), self.find_type(b)) {
-            (Type::Unknown, _) | (_, Type::Unknown) => Ok(()),
+            (Type::Unknown, _) | (_, Type::Unknown) => {
+                // Checked again when the unknown side is known - also for the elements of tuples.
+                self.add_constraint(a, span, Constraint::Add(b));
+                self.add_constraint(b, span, Constraint::Add(a));
+                Ok(())
+            }
 
             (Type::Float, Type::Float) | (Type::Int, Type::Int) | (Type::Str, Type::Str) => Ok(()),
 
@@ -1916,7 +1921,13 @@ impl TypeChecker {
 
     fn neg_inner(&mut self, span: Span, a: TyID) -> TypeResult<()> {
         match self.find_type(a) {
-            Type::Unknown | Type::Int | Type::Float => Ok(()),
+            Type::Unknown => {
+                // Checked again when the type is known - also for the elements of tuples.
+                self.add_constraint(a, span, Constraint::Neg);
+                Ok(())
+            }
+
+            Type::Int | Type::Float => Ok(()),
 
             // The runtime negates tuples element-wise, like the other arithmetic operators.
             Type::Tuple(a) => {
@@ -1947,7 +1958,12 @@ impl TypeChecker {
 
     fn sub_inner(&mut self, span: Span, ctx: TypeCtx, a: TyID, b: TyID) -> TypeResult<()> {
         match (self.find_type(a), self.find_type(b)) {
-            (Type::Unknown, _) | (_, Type::Unknown) => Ok(()),
+            (Type::Unknown, _) | (_, Type::Unknown) => {
+                // Checked again when the unknown side is known - also for the elements of tuples.
+                self.add_constraint(a, span, Constraint::Sub(b));
+                self.add_constraint(b, span, Constraint::Sub(a));
+                Ok(())
+            }
 
             (Type::Float, Type::Float) | (Type::Int, Type::Int) => Ok(()),
 
@@ -1983,7 +1999,12 @@ impl TypeChecker {
 
     fn mul_inner(&mut self, span: Span, ctx: TypeCtx, a: TyID, b: TyID) -> TypeResult<()> {
         match (self.find_type(a), self.find_type(b)) {
-            (Type::Unknown, _) | (_, Type::Unknown) => Ok(()),
+            (Type::Unknown, _) | (_, Type::Unknown) => {
+                // Checked again when the unknown side is known - also for the elements of tuples.
+                self.add_constraint(a, span, Constraint::Mul(b));
+                self.add_constraint(b, span, Constraint::Mul(a));
+                Ok(())
+            }
 
             (Type::Float, Type::Float) | (Type::Int, Type::Int) => Ok(()),
 
@@ -2019,8 +2040,12 @@ impl TypeChecker {
 
     fn div_inner(&mut self, span: Span, ctx: TypeCtx, a: TyID, b: TyID) -> TypeResult<()> {
         match (self.find_type(a), self.find_type(b)) {
-            (Type::Unknown, _) => Ok(()),
-            (_, Type::Unknown) => Ok(()),
+            (Type::Unknown, _) | (_, Type::Unknown) => {
+                // Checked again when the unknown side is known - also for the elements of tuples.
+                self.add_constraint(a, span, Constraint::DivTop(b));
+                self.add_constraint(b, span, Constraint::DivBot(a));
+                Ok(())
+            }
 
             (Type::Float | Type::Int, Type::Float | Type::Int) => Ok(()),
 
@@ -2117,7 +2142,12 @@ impl TypeChecker {
 
     fn cmp_inner(&mut self, span: Span, ctx: TypeCtx, a: TyID, b: TyID) -> TypeResult<()> {
         match (self.find_type(a), self.find_type(b)) {
-            (Type::Unknown, _) | (_, Type::Unknown) => Ok(()),
+            (Type::Unknown, _) | (_, Type::Unknown) => {
+                // Checked again when the unknown side is known - also for the elements of tuples.
+                self.add_constraint(a, span, Constraint::Cmp(b));
+                self.add_constraint(b, span, Constraint::Cmp(a));
+                Ok(())
+            }
 
             (Type::Float, Type::Float)
             | (Type::Int, Type::Int)
